@@ -206,6 +206,71 @@ theorem C10_declaration_order_irrelevant (σ σ' : List Name → List Name) (hσ
       ∀ steps, ∃ h h', run g steps = .ok h ∧ run g' steps = .ok h' ∧ SameAgents h h') :=
   fromConfig_order_irrelevant σ σ' hσ hσ' cfgs cfgs' hp hn hc
 
+/-! ## 3b. Agents with several shared-reward components; the driver's set-iteration oracle; weights 0 and omitted -/
+
+/-- **Every share is an arc.** The graph handed to `graph_has_cycle` / `topological_sort` has, for every agent, exactly the
+names of its shared-reward components as neighbours — the first, a middle and the last one alike, repeated names once or
+more — whatever the iteration order of the set. (A graph that records only some of an agent's shares is not this graph:
+the rig compares the real dictionary with the declared shares on every load.) -/
+theorem C10_every_share_is_an_arc (σ : List Name → List Name) (hσ : SetLike σ) (as : List (Name × Agent))
+    (u : Name) (a : Agent) (ha : as.lookup u = some a) (v : Name) :
+    v ∈ nbrs (sharingGraph σ as) u ↔ ∃ w, (Comp.shared v, w) ∈ a.comps := by
+  rw [nbrs_sharingGraph, ha]
+  simp only
+  rw [hσ]
+  constructor
+  · intro h
+    generalize a.comps = comps at h
+    induction comps with
+    | nil => simp [sharedNames] at h
+    | cons cw rest ih =>
+      obtain ⟨c, w'⟩ := cw
+      cases c <;> simp only [sharedNames, List.mem_cons] at h
+      case shared b =>
+        rcases h with h | h
+        · subst h; exact ⟨w', by simp⟩
+        · obtain ⟨w, hw⟩ := ih h; exact ⟨w, List.mem_cons_of_mem _ hw⟩
+      all_goals (obtain ⟨w, hw⟩ := ih h; exact ⟨w, List.mem_cons_of_mem _ hw⟩)
+  · intro ⟨w, hw⟩; exact mem_sharedNames_of_mem hw
+
+/-- **Every share is evaluated first.** In a game loaded by `from_config` (any neighbour-set order), and after any run of
+steps, an agent with any number of shared-reward components is evaluated after *each* of the agents it shares from —
+not only after the one named by its last component. -/
+theorem C10_every_share_evaluated_before (σ : List Name → List Name) (hσ : SetLike σ) (cfgs : List AgentCfg) (g : Game)
+    (hload : fromConfig σ cfgs = .ok g) (hc : Closed (buildAgents cfgs))
+    (n v : Name) (a : Agent) (w : Val) (ha : g.agents.lookup n = some a) (hv : (Comp.shared v, w) ∈ a.comps) :
+    v ∈ g.order ∧ n ∈ g.order ∧ g.order.idxOf v < g.order.idxOf n := by
+  have hb : hasCycle (sharingGraph σ (buildAgents cfgs)) = false := by
+    cases hb : hasCycle (sharingGraph σ (buildAgents cfgs)) with
+    | false => rfl
+    | true => rw [(fromConfig_spec σ hσ cfgs).1 hb] at hload; cases hload
+  obtain ⟨e, wf⟩ := (fromConfig_spec σ hσ cfgs).2 hb hc
+  rw [e] at hload; cases hload
+  have h := shared_mem_order wf ha (mem_sharedNames_of_mem hv)
+  exact ⟨h.1, (wf.orderMem n).mpr (List.mem_map.mpr ⟨(n, a), mem_of_lookup_agents ha, rfl⟩), h.2⟩
+
+/-- The oracle the driver hands to `fromConfig` is `SetLike` for EVERY table of observations the rig may send, so each
+model run the implementation is compared with lies inside the hypotheses of the theorems above: an observed neighbour
+collection that is not the set of the agent's shares is never copied into the model. -/
+theorem C10_sigmaOf_setLike (table : List (List Name × List Name)) : SetLike (sigmaOf table) := by
+  intro l x
+  unfold sigmaOf
+  split
+  · split
+    · rename_i o _ h
+      simp only [Bool.and_eq_true, List.all_eq_true, decide_eq_true_eq] at h
+      exact ⟨fun hx => h.1 x hx, fun hx => h.2 x hx⟩
+    · exact List.mem_eraseDups
+  · exact List.mem_eraseDups
+
+/-- A component configured with weight 0 is switched off: it contributes nothing to the step reward, whatever it
+evaluates to (its memory still advances). Negative weights are covered by `C10_weighted_sum` like any other. -/
+theorem C10_zero_weight_contributes_nothing (s : SimState) (it : Item) (cur : Name → Val) (c : Comp)
+    (pre post : List (Comp × Val)) :
+    (updateComps s it cur 0 (pre ++ (c, 0) :: post)).1 = (updateComps s it cur 0 (pre ++ post)).1 := by
+  rw [C10_weighted_sum, C10_weighted_sum]
+  simp [Rat.zero_mul, Rat.zero_add]
+
 /-! ## 4. Episode total = sum of step rewards -/
 
 /-- From a loaded game, after any run of steps: every agent has one history item per step, each carrying that step's
@@ -385,6 +450,13 @@ theorem C10_gen_shape :
     Gen.Reward.topoSortIsPostOrder = true ∧ Gen.Reward.cycleSearchShape = true ∧
     Gen.Reward.componentTypes = ["dummy", "database-file-integrity", "web-server-404-penalty",
       "webpage-unavailable-penalty", "green-admin-database-unreachable-penalty", "shared-reward", "action-penalty"] := by
+  decide
+
+/-- a component whose configuration omits `weight` is registered with the model's default, and `RewardFunction.__init__`
+passes the configured weight to `register_component` unchanged -/
+theorem C10_gen_default_weight :
+    Gen.Reward.defaultWeight = defaultWeight ∧ Gen.Reward.registerDefaultWeight = defaultWeight ∧
+    Gen.Reward.weightPassedUnchanged = true := by
   decide
 
 /-! ## 7. Non-vacuity: concrete non-trivial instances of the hypotheses used above -/
